@@ -31,6 +31,10 @@ import (
 
 //go:norace
 func (c *Conn) newToWriteBuf(buf []byte) {
+	// an empty queue entry can never be completed by flush.
+	if len(buf) == 0 {
+		return
+	}
 	c.left += len(buf)
 
 	allocator := c.p.g.BodyAllocator
